@@ -178,6 +178,20 @@ var solvers = []solverSpec{
 
 // Solve races the portfolio on one query.
 func Solve(query string, dir string, name string, timeoutS int, wantModel bool) SolveResult {
+	return solveWith(solvers, query, dir, name, timeoutS, wantModel)
+}
+
+// seedSolvers: a last-resort stage for obligations the default portfolio does not decide (solver heuristics are chaotic).
+var seedSolvers = []solverSpec{
+	{"z3-5.1.0/seed1", func(f string, t int) []string { return []string{"z3-new", "-smt2", "smt.random_seed=1", "sat.random_seed=1", fmt.Sprintf("-T:%d", t), f} }},
+	{"z3-5.1.0/seed2", func(f string, t int) []string { return []string{"z3-new", "-smt2", "smt.random_seed=2", "smt.auto_config=false", fmt.Sprintf("-T:%d", t), f} }},
+	{"z3-5.1.0/seed3", func(f string, t int) []string { return []string{"z3-new", "-smt2", "smt.random_seed=3", "smt.arith.solver=2", fmt.Sprintf("-T:%d", t), f} }},
+	{"z3-4.8.12/seed1", func(f string, t int) []string { return []string{"/usr/bin/z3", "-smt2", "smt.random_seed=1", fmt.Sprintf("-T:%d", t), f} }},
+	{"z3-4.8.12/seed2", func(f string, t int) []string { return []string{"/usr/bin/z3", "-smt2", "smt.random_seed=2", "smt.auto_config=false", fmt.Sprintf("-T:%d", t), f} }},
+	{"z3-4.8.12/seed3", func(f string, t int) []string { return []string{"/usr/bin/z3", "-smt2", "smt.random_seed=3", "smt.qi.eager_threshold=20", fmt.Sprintf("-T:%d", t), f} }},
+}
+
+func solveWith(solvers []solverSpec, query string, dir string, name string, timeoutS int, wantModel bool) SolveResult {
 	file := filepath.Join(dir, mangle(name)+".smt2")
 	if len(file) > 240 {
 		file = filepath.Join(dir, fmt.Sprintf("q%x.smt2", hashStr(name)))
@@ -424,11 +438,25 @@ func (g *Gen) pruneDecls(query string) []string {
 			}
 			take := false
 			if di.assert {
-				// an axiom is relevant when one of the functions/constants it constrains is used
+				// an axiom is relevant when one of the specific (non-core) functions/constants it constrains is used;
+				// axioms that only talk about the core sequence/byte-string vocabulary are relevant when that vocabulary is used
+				specific := false
 				for _, r := range di.refs {
-					if live[r] && !g.isSortName(r) {
+					if g.isSortName(r) || isCoreSym(r) {
+						continue
+					}
+					specific = true
+					if live[r] {
 						take = true
 						break
+					}
+				}
+				if !specific {
+					for _, r := range di.refs {
+						if live[r] && !g.isSortName(r) {
+							take = true
+							break
+						}
 					}
 				}
 			} else {
@@ -465,6 +493,19 @@ func (g *Gen) isSortName(n string) bool {
 		return true
 	}
 	if _, ok := g.reg.structs[n]; ok {
+		return true
+	}
+	return false
+}
+
+func isCoreSym(n string) bool {
+	for _, p := range []string{"len_", "at_", "isnil_", "cat_", "sub_", "upd_", "nil_", "cnt_", "extd_"} {
+		if strings.HasPrefix(n, p) {
+			return true
+		}
+	}
+	switch n {
+	case "bcontent", "bnil", "mk_Bytes", "emptystr", "tobytes", "tostring", "mk_Iface", "itag", "ipl":
 		return true
 	}
 	return false
